@@ -1,6 +1,7 @@
 package gofakes3
 
 import (
+	"context"
 	"encoding/base64"
 	"encoding/hex"
 	"encoding/xml"
@@ -128,8 +129,20 @@ func (g *GoFakeS3) hostBucketMiddleware(handler http.Handler) http.Handler {
 		}
 		g.log.Print(LogInfo, p, "=>", rq.URL)
 
-		handler.ServeHTTP(w, rq)
+		handler.ServeHTTP(w, withHostBucketRouting(rq))
 	})
+}
+
+// hostBucketRoutedKey marks a request whose bucket was taken from its Host.
+type hostBucketRoutedKey struct{}
+
+func withHostBucketRouting(rq *http.Request) *http.Request {
+	return rq.WithContext(context.WithValue(rq.Context(), hostBucketRoutedKey{}, true))
+}
+
+func routedByHostBucket(rq *http.Request) bool {
+	routed, _ := rq.Context().Value(hostBucketRoutedKey{}).(bool)
+	return routed
 }
 
 // hostBucketBaseMiddleware forces the server to use VirtualHost-style bucket URLs:
@@ -146,7 +159,8 @@ func (g *GoFakeS3) hostBucketBaseMiddleware(handler http.Handler) http.Handler {
 				continue
 			}
 			bucket = host[:len(host)-len(base)]
-			if idx := strings.IndexByte(bucket, '.'); idx >= 0 {
+			if idx := strings.IndexByte(bucket, '.'); idx >= 0 || bucket == "" {
+				// not '<single label>.<base>': the request is path-style
 				continue
 			}
 			return bucket, true
@@ -167,7 +181,7 @@ func (g *GoFakeS3) hostBucketBaseMiddleware(handler http.Handler) http.Handler {
 		}
 		g.log.Print(LogInfo, p, "=>", rq.URL)
 
-		handler.ServeHTTP(w, rq)
+		handler.ServeHTTP(w, withHostBucketRouting(rq))
 	})
 }
 
@@ -1004,9 +1018,10 @@ func (g *GoFakeS3) completeMultipartUpload(bucket, object string, uploadID Uploa
 	}
 
 	var location string
-	if g.hostBucket && len(g.hostBucketBases) == 0 {
-		// (a list of host bases takes precedence over WithHostBucket when the
-		// request is routed, see Server())
+	if routedByHostBucket(r) {
+		// The bucket was taken from the Host (every request with
+		// WithHostBucket, hosts of the form <bucket>.<base> with a list of
+		// bases): the Location names the object the same way.
 		location = fmt.Sprintf("%s://%s/%s", protocol, r.Host, object)
 	} else {
 		location = fmt.Sprintf("%s://%s/%s/%s", protocol, r.Host, bucket, object)
